@@ -9,3 +9,4 @@ import EdxmlProps.C19
 import EdxmlProps.C18
 import EdxmlProps.C09
 import EdxmlProps.C12
+import EdxmlProps.C11
